@@ -24,6 +24,7 @@ THEOREMS = [
     "TornadoModel.C29.decoded_per_content_encoding",
     "TornadoModel.C29.run_transparent",
     "TornadoModel.C29.run_feed_is_writes",
+    "TornadoModel.C29.wire_content_length_is_encoded_length",
     "TornadoModel.C29.identity_when_not_compressing",
     "TornadoModel.C29.transformFirst_shape",
 ]
@@ -43,7 +44,7 @@ EXHAUSTIVE = {"quick": False, "thorough": False}
 CLAUSE_CAVEATS = [
     "run_transparent / run_feed_is_writes cover exception-free programs (C02.opClean: no handler-set Content-Length / Transfer-Encoding, body-carrying statuses) on non-HEAD requests without an If-None-Match hit; HEAD, 304/204/1xx, handler-set Content-Length and the error path (send_error re-entering finish) are decided by the tie with real zlib",
     "decoded_per_content_encoding additionally assumes no handler-set Content-Encoding (opClean29); with one, the client-side decoding is the handler's business (ASSUMPTIONS) and run_transparent still gives the framing + body",
-    "cl_equals_encoded_length is transform level; on the wire, run_transparent gives 'exactly one response, nothing left over' under Content-Length framing (so the declared length is the encoded body length) for clean programs only",
+    "wire_content_length_is_encoded_length (Content-Length on the wire = length of the encoded body) covers clean programs, where the Content-Length is the automatic one rewritten by the transform; a handler-set Content-Length (rewritten when finishing in the first chunk, dropped when streaming: cl_equals_encoded_length / cl_dropped_when_streaming, transform level) is judged on the wire by the C02 framing oracle",
 ]
 CLAUSES = {
     "a client that decodes the body according to Content-Encoding obtains exactly the bytes written":
@@ -55,7 +56,7 @@ CLAUSES = {
         "tie only: HEAD, body-less statuses, handler Content-Length, error path",
     "compression only for compressible types and only when Accept-Encoding mentions gzip": "compress_only_if + not_compressed_passthrough",
     "Vary always includes Accept-Encoding": "vary_always (every path through transform_first_chunk); tie only: it is called on every first flush incl. error pages",
-    "a Content-Length, when present, equals the encoded body length": "cl_equals_encoded_length + cl_dropped_when_streaming (transform level); run_transparent (wire level, clean programs: the strict client finds exactly one response and nothing left over whichever framing is used); otherwise C02 framing oracle",
+    "a Content-Length, when present, equals the encoded body length": "wire_content_length_is_encoded_length (wire level, clean programs: every Content-Length the strict client sees = length of the body on the wire = the transform's output) + cl_equals_encoded_length + cl_dropped_when_streaming (transform level, any header map incl. handler-set Content-Length); tie only: handler-set Content-Length on the wire (C02 framing oracle)",
 }
 PARALLEL = False   # 1-2 ms per case; forking a pool costs more than it saves
 CASE_TIMEOUT = 20
